@@ -15,7 +15,7 @@ for f in k['fixed']:
             seen.add((m.group(1),c)); print(m.group(1),c)
 PY
 while read prop c; do
-  true
+  [ -n "$ONLYC" ] && ! echo " $ONLYC " | grep -q " $c " && continue
   true
   wt=/tmp/rv-$c
   git -C /repo worktree add --detach $wt HEAD -q 2>/dev/null
